@@ -4,6 +4,7 @@ JSON codec of the line protocol (DESIGN.md appendix B).
 import Lean.Data.Json
 import DimModel.Lib.GetSet
 import DimModel.Lib.Align
+import DimModel.Lib.Axes
 import DimModel.Driver.Cell
 open Lean
 namespace DimModel.Codec
